@@ -232,7 +232,11 @@ def expectedFailure : Entry → Outcome
 return a value — for EVERY `n` (also 0), every seed, both `TruncLcgRand` variants, and for
 `SubsetSum` every oracle of the shape `os.urandom` produces that answers often enough with a
 non-zero subset sum — and the value satisfies the range clause (for the shipped `TruncLcgRand`,
-D5, only up to the byte boundary unless `8 ∣ n`). -/
+D5, only up to the byte boundary unless `8 ∣ n`).
+SCOPE (second review, L30): `seed : Int` is a GIVEN integer seed, i.e. the call
+`RandomBits(n, seed=<int>)`.  The unseeded `Lehmer.RandomBits` first draws a seed in a rejection loop
+(`while True: … if math.gcd(seed, self.mod) == 1: break`) that is NOT modelled; it ends with
+probability 1 for `mod ≥ 1` but not for every `os.urandom` (Props/C20TotalLink.lean header). -/
 theorem entry_total (v : Variant) (e : Entry) (n : Nat) (seed : Int) (o : Oracle)
     (hok : entryOk e = true) (hshape : oracleShape e o) (hsuf : oracleSuffices e n o) :
     ∃ r, run v e n seed o = .value r ∧
@@ -269,7 +273,8 @@ theorem entry_total (v : Variant) (e : Entry) (n : Nat) (seed : Int) (o : Oracle
 `RandomBits(n, seed)` never return a value: the outcome is exactly `expectedFailure e` — a
 `ValueError` of the constructor, a `ZeroDivisionError` of `RandomBits`, or non-termination
 (`Lehmer(bits=0)`, `SubsetSum(bits, 0)`, `SubsetSum(0, k)`; for `SubsetSum` with every oracle of
-the right shape, however long). -/
+the right shape, however long).  For `Lehmer` the outcome `.diverges` is the DEFINITION of
+`lehmerOutcome` at `bits = 0`; its link to the literal loop is `C20TotalLink.lehmer_diverges_iff`. -/
 theorem entry_not_ok (v : Variant) (e : Entry) (n : Nat) (hn : 0 < n) (seed : Int) (o : Oracle)
     (hnot : entryOk e = false) (hshape : oracleShape e o) :
     run v e n seed o = expectedFailure e := by
